@@ -338,7 +338,7 @@ func (e *BinaryOpExpr) execStringIn(kv KVPair, ctx *ExecuteCtx) (any, error) {
 			}
 		}
 		return false, nil
-	case *FunctionCallExpr:
+	case *FunctionCallExpr, *FieldReferenceExpr:
 		if rlist.ReturnType() != TLIST {
 			return false, NewExecuteError(rlist.GetPos(), "in operator right expression has wrong type, not list 1")
 		}
@@ -347,6 +347,10 @@ func (e *BinaryOpExpr) execStringIn(kv KVPair, ctx *ExecuteCtx) (any, error) {
 			return false, err
 		}
 		vals, ok := fret.([]any)
+		if !ok {
+			// list of strings or numbers such as the result of split() or list()
+			vals, ok = unpackArray(fret)
+		}
 		if !ok {
 			return false, NewExecuteError(rlist.GetPos(), "in operator right expression has wrong type, not list 2")
 		}
@@ -388,7 +392,7 @@ func (e *BinaryOpExpr) execNumberIn(kv KVPair, ctx *ExecuteCtx) (any, error) {
 			}
 		}
 		return false, nil
-	case *FunctionCallExpr:
+	case *FunctionCallExpr, *FieldReferenceExpr:
 		if rlist.ReturnType() != TLIST {
 			return false, NewExecuteError(rlist.GetPos(), "in operator right expression has wrong type, not list")
 		}
@@ -397,6 +401,10 @@ func (e *BinaryOpExpr) execNumberIn(kv KVPair, ctx *ExecuteCtx) (any, error) {
 			return false, err
 		}
 		vals, ok := fret.([]any)
+		if !ok {
+			// list of strings or numbers such as the result of split() or list()
+			vals, ok = unpackArray(fret)
+		}
 		if !ok {
 			return false, NewExecuteError(rlist.GetPos(), "in operator right expression has wrong type, not list")
 		}
@@ -625,6 +633,24 @@ func (e *FieldAccessExpr) execListAccess(idx int, left any) (any, error) {
 	)
 	switch lval := left.(type) {
 	case []any:
+		lvallen := len(lval)
+		if idx < lvallen {
+			have = true
+			fval = lval[idx]
+		}
+	case []string:
+		lvallen := len(lval)
+		if idx < lvallen {
+			have = true
+			fval = lval[idx]
+		}
+	case []int64:
+		lvallen := len(lval)
+		if idx < lvallen {
+			have = true
+			fval = lval[idx]
+		}
+	case []float64:
 		lvallen := len(lval)
 		if idx < lvallen {
 			have = true
